@@ -25,7 +25,7 @@ type raceState struct {
 	seen  map[string]bool
 }
 
-type idealState struct{}
+
 
 func newRaceState() *raceState {
 	return &raceState{objVC: map[interface{}]VC{}, cells: map[*Value]*cellState{}, seen: map[string]bool{}}
